@@ -185,11 +185,12 @@ static void instances(int n, int maxm, bool withEq, int scaleVariant, bool perms
 
 // ---- part A2: instance, solve, then move desired positions and re-solve on the SAME solver ------------------
 // (the incremental use made by gradient projection and nudging: constraints fixed, desired positions change between solves)
-template <class NS> static void resolves(int n, int maxm, const vector<double> &gaps, int wmode) {
+// tiny: the desired positions are moved by +0.004 / -0.006 instead (a block then has to split although its most negative multiplier is only a few thousandths)
+template <class NS> static void resolves(int n, int maxm, const vector<double> &gaps, int wmode, bool tiny = false) {
     vector<double> dvals = {0, 1, 3}, newd = {0, 12};
     vector<SepC> alphabet; for (int l = 0; l < n; l++) for (int r = 0; r < n; r++) if (l != r) for (double g : gaps) alphabet.push_back({l, r, g, false});
     int A = alphabet.size();
-    ctx.phase(mcx::fmt("re-solves %s n=%d m<=%d gaps=%zu weights#%d: solve, then each desired[v]:=0|12 in turn, re-solve", NS::name(), n, maxm, gaps.size(), wmode));
+    ctx.phase(mcx::fmt("re-solves %s n=%d m<=%d gaps=%zu weights#%d: solve, then each desired[v]%s in turn, re-solve", NS::name(), n, maxm, gaps.size(), wmode, tiny ? " moved by +0.004 and then by -0.006" : ":=0|12"));
     for (int m = 1; m <= maxm && !ctx.stopped(); m++) {
         vector<int> idx(m, 0);
         do {
@@ -206,7 +207,7 @@ template <class NS> static void resolves(int n, int maxm, const vector<double> &
                     try {
                         typename NS::Inc s(vs, vc); vector<double> d = I.d;
                         for (int step = 0; step <= 2 * n; step++) {
-                            if (step > 0) { int v = (step - 1) / 2; double nv = newd[(step - 1) % 2]; d[v] = nv; vs[v]->desiredPosition = nv; hist += mcx::fmt(" desired[%d]:=%g solve", v, nv); }
+                            if (step > 0) { int v = (step - 1) / 2; double nv = tiny ? d[v] + ((step - 1) % 2 ? -0.006 : 0.004) : newd[(step - 1) % 2]; d[v] = nv; vs[v]->desiredPosition = nv; hist += mcx::fmt(" desired[%d]:=%g solve", v, nv); }
                             s.solve(); ctx.count("transitions");
                             bool any = false; for (auto c : vc) any |= c->unsatisfiable;
                             vector<double> x; for (auto v : vs) x.push_back(v->finalPosition);
@@ -501,6 +502,7 @@ int main(int argc, char **argv) {
     instances(2, 3, true, 2, false);
     if (!P1) { instances(2, 3, true, 0, true); instances(3, 2, true, 0, true); instances(3, 2, false, 1, true); }
     resolves<NSvpsc>(3, 3, {-1, 0, 2}, 1); resolves<NSvpsc>(4, 4, {1}, 2); resolves<NSavoid>(3, 3, {0, 2}, 2);
+    resolves<NSvpsc>(3, 3, {-1, 0, 2}, 1, true); resolves<NSavoid>(3, 3, {0, 2}, 2, true);
     addresolves<NSvpsc>(3, 2, false); addresolves<NSavoid>(3, 2, false);
     families<NSvpsc>(T); families<NSavoid>(T);
     if (P1) { redundant_equalities(3, 3); redundant_equalities(4, 2); if (T) { redundant_equalities(3, 4); redundant_equalities(4, 3); } }
